@@ -1,12 +1,14 @@
 #!/bin/sh
-# usage: tools_seed_test.sh <seed-id> <property> [tier]   applies seeded/<id>/patch.diff to /repo, runs the check, undoes it
+# usage: tools_seed_test.sh <seed-id> <property> [tier]   applies seeded/<id>/patch.diff to a scratch copy of /repo (VERIF_REPO),
+# runs the check against it and removes the copy.  /repo itself is never touched.
 id=$1; prop=$2; tier=${3:-quick}
-cd /repo || exit 2
-git diff --quiet || { echo "/repo has uncommitted changes"; exit 2; }
-git apply /verif/seeded/$id/patch.diff || { echo "patch does not apply"; exit 2; }
-cd /verif && VERIF_NO_EVIDENCE=1 ./check $prop --tier $tier > /verif/.work/seed_$id_$prop.out 2>&1
+scratch=$(mktemp -d /tmp/seedrepo.XXXXXX)
+trap 'rm -rf "$scratch"' EXIT
+mkdir -p "$scratch/repo"
+git -C /repo archive HEAD | tar -x -C "$scratch/repo"
+( cd "$scratch/repo" && git init -q . && git apply /verif/seeded/$id/patch.diff ) || { echo "patch does not apply"; exit 2; }
+cd /verif && VERIF_REPO="$scratch/repo" VERIF_NO_EVIDENCE=1 ./check $prop --tier $tier > /verif/.work/seed_${id}_$prop.out 2>&1
 rc=$?
-git -C /repo checkout -- .
 echo "seed $id property $prop tier $tier: rc=$rc"
-grep -E "failing clause|^VIOLATION|MACHINERY" /verif/.work/seed_$id_$prop.out | cut -c1-300 | head -5
+grep -E "failing clause|^VIOLATION|MACHINERY" /verif/.work/seed_${id}_$prop.out | cut -c1-300 | head -5
 exit 0
